@@ -49,7 +49,7 @@ type Op struct {
 	Blob int    `json:"blob,omitempty"`
 	Tag  int    `json:"tag"` // -1 = by digest, 0..2 = t0..t2, 3 = v1
 	// copy
-	From       string     `json:"from,omitempty"` // reg | layout
+	From       string     `json:"from,omitempty"` // reg | layout | self (re-tag inside the target layout)
 	SrcByTag   bool       `json:"src_by_tag,omitempty"`
 	Child      bool       `json:"child,omitempty"`
 	Platforms  []string   `json:"platforms,omitempty"`
@@ -58,7 +58,7 @@ type Op struct {
 	Force      bool       `json:"force,omitempty"`
 	External   bool       `json:"external,omitempty"`
 	Fault      *FaultSpec `json:"fault,omitempty"`
-	CloseEvery int        `json:"close_every,omitempty"` // copy from the registry: Close(target) at every k-th source request (0 = never)
+	CloseEvery int        `json:"close_every,omitempty"` // Close(target) from inside every k-th source request / progress callback of the copy (0 = never)
 	// push
 	SkipBlobs    bool `json:"skip_blobs,omitempty"`
 	SkipChildren bool `json:"skip_children,omitempty"`
@@ -135,16 +135,18 @@ func sortedBlobDigests(g *imggen.Graph) []string {
 	return out
 }
 
-func addBlob(g *imggen.Graph, data []byte) string {
-	d := rm.Digest("sha256", data)
+func addBlob(g *imggen.Graph, data []byte) string { return addBlobAlg(g, data, "sha256") }
+
+func addBlobAlg(g *imggen.Graph, data []byte, alg string) string {
+	d := rm.Digest(alg, data)
 	if _, ok := g.Blobs[d]; !ok {
 		g.Blobs[d] = &imggen.Blob{Digest: d, Data: data}
 	}
 	return d
 }
 
-func addNode(g *imggen.Graph, n *imggen.Node) int {
-	n.Digest = rm.Digest("sha256", n.Body)
+func addNode(g *imggen.Graph, n *imggen.Node, alg string) int {
+	n.Digest = rm.Digest(alg, n.Body)
 	for _, o := range g.Nodes {
 		if o.Digest == n.Digest {
 			return o.ID
@@ -156,12 +158,12 @@ func addNode(g *imggen.Graph, n *imggen.Node) int {
 }
 
 // pickBlob returns a blob of the graph (shared with whatever already uses it) or a new one.
-func pickBlob(t *rapid.T, g *imggen.Graph, label string) string {
+func pickBlob(t *rapid.T, g *imggen.Graph, label, alg string) string {
 	pool := sortedBlobDigests(g)
 	if len(pool) > 0 && rapid.IntRange(0, 1).Draw(t, label+"_reuse") == 0 {
 		return rapid.SampledFrom(pool).Draw(t, label+"_pick")
 	}
-	return addBlob(g, rapid.SliceOfN(rapid.Byte(), 1, 24).Draw(t, label+"_data"))
+	return addBlobAlg(g, rapid.SliceOfN(rapid.Byte(), 1, 24).Draw(t, label+"_data"), alg)
 }
 
 // genExtras appends nodes the image generator does not produce by itself:
@@ -174,6 +176,12 @@ func genExtras(t *rapid.T, g *imggen.Graph) {
 	for i := 0; i < n; i++ {
 		l := fmt.Sprintf("x%d", i)
 		kind := rapid.SampledFrom([]string{"sibling", "sibling", "ref-image", "ref-artifact", "ref-index"}).Draw(t, l+"_kind")
+		// some of the extra objects (the manifest itself and the new blobs it names) are addressed by sha512 digests
+		alg := "sha256"
+		if rapid.IntRange(0, 3).Draw(t, l+"_sha512") == 0 {
+			alg = "sha512"
+			labels["x-sha512"] = true
+		}
 		subject, subjDesc := "", ""
 		if kind != "sibling" {
 			si := rapid.IntRange(-1, len(g.Nodes)-1).Draw(t, l+"_subj")
@@ -201,12 +209,12 @@ func genExtras(t *rapid.T, g *imggen.Graph) {
 			if kind == "ref-image" {
 				cfg, cmt = []byte("{}"), rm.MTOCIEmpty
 			}
-			cd := addBlob(g, cfg)
+			cd := addBlobAlg(g, cfg, alg)
 			node.Blobs = append(node.Blobs, cd)
 			layers := []string{}
 			nl := rapid.IntRange(0, 3).Draw(t, l+"_nl")
 			for j := 0; j < nl; j++ {
-				d := pickBlob(t, g, fmt.Sprintf("%s_l%d", l, j))
+				d := pickBlob(t, g, fmt.Sprintf("%s_l%d", l, j), alg)
 				layers = append(layers, descJSON(rm.MTOCILayerGzip, d, len(g.Blobs[d].Data)))
 				node.Blobs = append(node.Blobs, d)
 			}
@@ -227,7 +235,7 @@ func genExtras(t *rapid.T, g *imggen.Graph) {
 			bl := []string{}
 			nb := rapid.IntRange(0, 2).Draw(t, l+"_nb")
 			for j := 0; j < nb; j++ {
-				d := pickBlob(t, g, fmt.Sprintf("%s_b%d", l, j))
+				d := pickBlob(t, g, fmt.Sprintf("%s_b%d", l, j), alg)
 				bl = append(bl, descJSON("application/octet-stream", d, len(g.Blobs[d].Data)))
 				node.Blobs = append(node.Blobs, d)
 			}
@@ -247,12 +255,12 @@ func genExtras(t *rapid.T, g *imggen.Graph) {
 				layers := []string{}
 				nl := rapid.IntRange(0, 2).Draw(t, fmt.Sprintf("%s_e%d_nl", l, j))
 				for k := 0; k < nl; k++ {
-					d := pickBlob(t, g, fmt.Sprintf("%s_e%d_l%d", l, j, k))
+					d := pickBlob(t, g, fmt.Sprintf("%s_e%d_l%d", l, j, k), alg)
 					layers = append(layers, descJSON(rm.MTOCILayerGzip, d, len(g.Blobs[d].Data)))
 					child.Blobs = append(child.Blobs, d)
 				}
 				child.Body = []byte(`{"schemaVersion":2,"mediaType":"` + rm.MTOCIManifest + `","config":` + descJSON(rm.MTOCIConfig, cd, len(cfg)) + `,"layers":[` + strings.Join(layers, ",") + `]}`)
-				ci := addNode(g, child)
+				ci := addNode(g, child, alg)
 				c := g.Nodes[ci]
 				ents = append(ents, descJSON(c.MediaType, c.Digest, len(c.Body)))
 				node.Children = append(node.Children, ci)
@@ -260,7 +268,7 @@ func genExtras(t *rapid.T, g *imggen.Graph) {
 			node.Body = []byte(`{"schemaVersion":2,"mediaType":"` + rm.MTOCIIndex + `","artifactType":"` + at + `","manifests":[` + strings.Join(ents, ",") + `],"subject":` + subjDesc + `}`)
 			labels["x-ref-index"] = true
 		}
-		addNode(g, node)
+		addNode(g, node, alg)
 	}
 	for l := range labels {
 		g.Labels = append(g.Labels, l)
@@ -304,7 +312,7 @@ func genOp(t *rapid.T, nNodes, nBlobs int, system string) Op {
 	op := Op{Kind: kind, Node: rapid.IntRange(0, nNodes-1).Draw(t, "node"), Tag: rapid.IntRange(-1, 3).Draw(t, "tag")}
 	switch kind {
 	case "copy":
-		op.From = rapid.SampledFrom([]string{"reg", "reg", "layout"}).Draw(t, "from")
+		op.From = rapid.SampledFrom([]string{"reg", "reg", "reg", "reg", "layout", "layout", "self"}).Draw(t, "from")
 		op.SrcByTag = rapid.IntRange(0, 3).Draw(t, "srcbytag") == 0
 		op.Child = rapid.IntRange(0, 7).Draw(t, "child") == 0
 		if rapid.IntRange(0, 3).Draw(t, "sparse") == 0 {
@@ -319,9 +327,7 @@ func genOp(t *rapid.T, nNodes, nBlobs int, system string) Op {
 			op.Referrers = rapid.IntRange(0, 2).Draw(t, "referrers") == 0
 			op.DigestTags = rapid.IntRange(0, 3).Draw(t, "digesttags") == 0
 		}
-		if op.From == "reg" {
-			op.CloseEvery = rapid.SampledFrom([]int{0, 0, 1, 2, 3}).Draw(t, "closeevery")
-		}
+		op.CloseEvery = rapid.SampledFrom([]int{0, 0, 1, 2, 3, 5}).Draw(t, "closeevery")
 	case "push":
 		op.Child = rapid.IntRange(0, 7).Draw(t, "child") == 0
 		op.SkipBlobs = rapid.IntRange(0, 5).Draw(t, "skipblobs") == 0
